@@ -96,7 +96,7 @@ MeanTok == <<-1, -1, -1>>          \* the token "mean of the volume" (not an ind
 WindowCell(vdims, centre, shape, w) == LET s == Add(WStart(centre, shape), w) IN IF InBox(s, vdims) THEN s ELSE MeanTok
 
 -----------------------------------------------------------------------------
-\* C_n symmetrisation, n in {2, 4}: rotations by k * 360/n about z are cube rotations
+\* C_n symmetrisation, n in {1, 2, 4}: rotations by k * 360/n about z are cube rotations (n = 1: the map itself)
 
 ZTurn(n, k) == Pow(Rz1, k * (4 \div n))
 \* the source voxel that the k-th rotated copy shows at x
@@ -154,11 +154,14 @@ TypeOK == /\ d \in {0, 1}
           /\ kind = "placelist" => /\ Len(inp.tmpls) = Len(inp.poses)
                                    /\ \A i \in DOMAIN inp.poses : inp.poses[i].R \in All /\ inp.tmpls[i].S % 2 = 0
           /\ kind = "window" => \A i \in 1..3 : inp.shape[i] % 2 = 0 /\ inp.shape[i] > 0
-          /\ kind = "sym" => inp.n \in {2, 4}
+          /\ kind = "sym" => inp.n \in {1, 2, 4}
 
 \* every operation is a function of its inputs and leaves them as they are (maps, angle / coordinate / shape arrays,
 \* templates, particle lists): the same input object can be used for the next call
 C14_InputsUntouched == [][inp' = inp /\ kind' = kind]_vars
+\* results are values of their own: once returned they stay what they were (nothing happens after d = 1), and since inp
+\* never changes, nothing a caller does with a result can reach an input (the driver edits every returned array in place)
+C14_ResultsPersist == [][d = 1 => out' = out]_vars
 
 \* a rotation permutes the decided voxels: no two sources share a destination, sources and destinations are interior,
 \* offsets from the centre are carried by R (active), and rotating back with the inverse returns every voxel
